@@ -9,6 +9,7 @@ import (
 
 	"github.com/hashicorp/consul/acl"
 	"github.com/hashicorp/consul/acl/resolver"
+	"github.com/hashicorp/consul/agent/blockingquery"
 	"github.com/hashicorp/consul/agent/consul/fsm"
 	"github.com/hashicorp/consul/agent/consul/state"
 	"github.com/hashicorp/consul/agent/rpc/middleware"
@@ -94,3 +95,6 @@ func VerifClearSessionTimer(s *Server, id string) error            { return s.cl
 func VerifClearAllSessionTimers(s *Server)                         { s.clearAllSessionTimers() }
 func VerifInitializeSessionTimers(s *Server) error                 { return s.initializeSessionTimers() }
 func VerifSessionTimerCount(s *Server) int                         { return s.sessionTimers.Len() }
+
+// VerifSetQueryMeta runs the real (*Server).SetQueryMeta (index forced >= 1 etc.).
+func VerifSetQueryMeta(s *Server, m blockingquery.ResponseMeta, token string) { s.SetQueryMeta(m, token) }
